@@ -269,6 +269,8 @@ class Ctx:
                 print('VIOLATION property=%s replay=%s' % (self.prop, p))
                 print('  site=%s class=%s :: %s' % (v['site'], v['input_class'], str(v['detail'])[:400]))
             code = 1
+            for m in self.inconclusive[:5]:
+                print('INCONCLUSIVE (besides the violations): ' + str(m)[:500])
         elif self.inconclusive:
             for m in self.inconclusive[:10]:
                 print('INCONCLUSIVE: ' + str(m)[:500])
